@@ -54,9 +54,14 @@ static Outer makeOuter(unsigned k) {
 }
 
 // one operation, deterministic in k; returns a canonical string result
+struct Wide {
+	std::u16string a; std::u32string b; std::wstring c;
+	template <class TArchive> void Serialize(TArchive& archive) { archive << KeyValue("a", a) << KeyValue("b", b) << KeyValue("c", c); }
+};
+
 static std::string runOp(unsigned kind, unsigned k, const std::string& sharedMp, const std::string& sharedJson) {
 	try {
-		switch (kind % 12) {
+		switch (kind % 16) {
 		case 0: return SaveObject<MsgPack::MsgPackArchive>(makeOuter(k));
 		case 1: return SaveObject<Json::RapidJson::JsonArchive>(makeOuter(k));
 		case 2: return SaveObject<Xml::PugiXml::XmlArchive>(makeOuter(k));
@@ -71,6 +76,21 @@ static std::string runOp(unsigned kind, unsigned k, const std::string& sharedMp,
 			auto o = makeOuter(k); o.id = 5000; auto doc = SaveObject<Json::RapidJson::JsonArchive>(o); Outer o2;
 			try { LoadObject<Json::RapidJson::JsonArchive>(o2, doc); return "novalidation"; }
 			catch (const ValidationException& e) { return "validation" + std::to_string(e.GetValidationErrors().size()); } }
+		case 12: { // time_t wrappers (CRawTime) both ways
+			const time_t tt = static_cast<time_t>(k) * 86399 + 17; auto str = Convert::ToString(CRawTime(tt));
+			return str + std::to_string(static_cast<long long>(Convert::To<CRawTime>(str).Time)); }
+		case 13: { // ISO durations and sub-second time points
+			auto d = std::chrono::milliseconds(static_cast<long long>(k) * 1001 - 50000); auto str = Convert::ToString(d);
+			auto tp = std::chrono::time_point<std::chrono::system_clock, std::chrono::milliseconds>(std::chrono::milliseconds(k * 1000003LL));
+			return str + std::to_string(Convert::To<std::chrono::milliseconds>(str).count()) + Convert::ToString(tp); }
+		case 14: { // wide-string fields of every width through the text archives (transcoding buffers)
+			Wide w; w.a = u"шестнадцать-" + std::u16string(k % 5, u'я'); w.b = U"thirty-two-\U0001F600" + std::u32string(k % 3, U'z'); w.c = L"wide-" + std::to_wstring(k);
+			auto js = SaveObject<Json::RapidJson::JsonArchive>(w); Wide w2; LoadObject<Json::RapidJson::JsonArchive>(w2, js);
+			auto xs = SaveObject<Xml::PugiXml::XmlArchive>(w); Wide w3; LoadObject<Xml::PugiXml::XmlArchive>(w3, xs);
+			return js + xs + Convert::ToString(w2.a) + Convert::ToString(w3.b) + Convert::ToString(w2.c); }
+		case 15: { // enum names in another letter case, bool and floating-point text
+			return Convert::ToString(Convert::To<Color>(std::string(k % 3 == 0 ? "RED" : k % 3 == 1 ? "gReEn" : "blue"))) + Convert::ToString(Convert::To<double>(std::to_string(k) + ".5")) +
+				Convert::ToString(Convert::To<bool>(std::string(k % 2 ? "TRUE" : "false"))) + Convert::To<std::string>(std::wstring(L"w") + std::to_wstring(k)); }
 		case 11: { std::vector<Row> r; LoadObject<Csv::CsvArchive>(r, std::string("x,y,z\r\n1,\"a,b\",1.5\r\n") + std::to_string(k) + ",k,2\r\n"); return std::to_string(r.size()) + r.back().y + std::to_string(r.back().x); }
 		}
 	} catch (const std::exception& e) { return std::string("EXC:") + e.what(); }
@@ -101,7 +121,7 @@ int main(int argc, char** argv) {
 	size_t ops = 0;
 	for (unsigned t = 0; t < threads; ++t)
 		for (size_t i = 0; i < golden[t].size(); ++i, ++ops)
-			if (golden[t][i] != actual[t][i]) { std::cout << "mismatch thread=" << t << " op=" << i << " kind=" << plan[t][i].first % 12 << "\n"; return 1; }
+			if (golden[t][i] != actual[t][i]) { std::cout << "mismatch thread=" << t << " op=" << i << " kind=" << plan[t][i].first % 16 << "\n"; return 1; }
 	std::cout << "ok " << ops << "\n";
 	return 0;
 }
